@@ -6,6 +6,7 @@ EXTENDS HopHandshake, Json
 C(key, cls, name) == [key |-> key, cls |-> cls, name |-> name]
 CertU == [ sv  |-> C("k1", "valid", "a"),        \* the honest server's certificate (name a)
            svb |-> C("k2", "valid", "b"),        \* a VALID certificate for another name, owned by the adversary
+           svr |-> C("k2", "valid", "araw"),     \* a VALID certificate carrying the right LABEL as a raw (non-DNS) name
            sx  |-> C("k2", "expired", "a"),      \* adversary's certificates for name a with one defect each
            sw  |-> C("k2", "wrongtype", "a"),
            su  |-> C("k2", "untrusted", "a"),
@@ -16,7 +17,10 @@ CertU == [ sv  |-> C("k1", "valid", "a"),        \* the honest server's certific
            cx  |-> C("k7", "expired", "c"),
            cu  |-> C("k7", "untrusted", "c") ]
 
-SC(cert, key, pol, kem, hidden) == [cert |-> cert, key |-> key, pol |-> pol, auth |-> {"k5"}, kem |-> kem, hidden |-> hidden]
+(* auth: keys authorised now; rev: keys that WERE authorised and have been removed again (the   *)
+(* real key set is built by adding auth and rev and then removing rev)                          *)
+SC(cert, key, pol, kem, hidden) == [cert |-> cert, key |-> key, pol |-> pol, auth |-> {"k5"}, rev |-> {}, kem |-> kem, hidden |-> hidden]
+SCrev(cert, key, pol, kem, hidden) == [cert |-> cert, key |-> key, pol |-> pol, auth |-> {}, rev |-> {"k5"}, kem |-> kem, hidden |-> hidden]
 (* server instances: S* honest (certificate sv, key k1) with each client policy; A* adversarial *)
 SCfgU == [ Sskip  |-> SC("sv", "k1", "skip", "kS", FALSE),
            Sstore |-> SC("sv", "k1", "store", "kS", FALSE),
@@ -24,6 +28,10 @@ SCfgU == [ Sskip  |-> SC("sv", "k1", "skip", "kS", FALSE),
            Sboth  |-> SC("sv", "k1", "both", "kS", FALSE),
            Hskip  |-> SC("sv", "k1", "skip", "kS", TRUE),      \* hidden-only server
            Hauth  |-> SC("sv", "k1", "authkeys", "kS", TRUE),
+           Srev   |-> SCrev("sv", "k1", "authkeys", "kS", FALSE),  \* the client's key was authorised and then removed
+           Sbrev  |-> SCrev("sv", "k1", "both", "kS", FALSE),
+           Hrev   |-> SCrev("sv", "k1", "authkeys", "kS", TRUE),
+           Araw   |-> SC("svr", "k2", "skip", "kA", FALSE),    \* right label, wrong name type
            Aimp   |-> SC("sv", "k9", "skip", "kA", FALSE),     \* impostor: victim's certificate, another key
            Aname  |-> SC("svb", "k2", "skip", "kA", FALSE),    \* valid certificate, wrong name
            Aexp   |-> SC("sx", "k2", "skip", "kA", FALSE),
@@ -40,7 +48,7 @@ CliB == {CC("cc", "k5", "store", "a", "Sskip"), CC("cv", "k6", "store", "a", "Ss
          CC("cx", "k7", "store", "a", "Sskip"), CC("cu", "k7", "store", "a", "Sskip"),
          CC("cc", "k8", "store", "a", "Sskip"),      \* impostor client: authorised certificate, another key
          CC("cv", "k8", "store", "a", "Sskip")}
-SrvB == {"Sskip", "Sstore", "Sauth", "Sboth", "Hskip", "Hauth"}
+SrvB == {"Sskip", "Sstore", "Sauth", "Sboth", "Hskip", "Hauth", "Srev", "Sbrev", "Hrev"}
 (* Family C: two concurrent honest sessions with one server (splicing, replays, re-addressing) *)
 CliC == {CC("cc", "k5", "store", "a", "Sauth"), CC("cv", "k6", "store", "a", "Sauth")}
 SrvC == {"Sauth"}
@@ -60,7 +68,7 @@ EmitBeh == Terminal =>
     PrintT(<<"BEH", ToJson([
         mode |-> Mode, ccfg |-> CCfg, dial |-> Dial, hist |-> hist,
         scfg |-> [s \in Used \cup {CCfg[i].skem : i \in Sess} |-> [cert |-> SCfg[s].cert, key |-> SCfg[s].key, pol |-> SCfg[s].pol, kem |-> SCfg[s].kem,
-                                   hidden |-> SCfg[s].hidden, auth |-> SCfg[s].auth]],
+                                   hidden |-> SCfg[s].hidden, auth |-> SCfg[s].auth, rev |-> SCfg[s].rev]],
         certs |-> Cert,
         cl   |-> [i \in Sess |-> [st |-> cl[i].st, alt |-> cl[i].alt, saw |-> cl[i].saw, srvOK |-> SrvOK(i), cliOK |-> CliOK(i), cliPol |-> CliPol(i), cliKey |-> CliKey(i),
                                    agree |-> cl[i].st = "done" /\ Agree(i)]],
